@@ -159,6 +159,14 @@ pub(crate) struct Net {
     pub connects_ok: u64,
     pub connects_refused: u64,
     epoch: Option<Instant>,
+    /// simulated disk: path -> generations (one per `File::create`), newest last
+    files: BTreeMap<String, Vec<Vec<u8>>>,
+    /// generations on which a write failed
+    files_failed: BTreeMap<String, Vec<usize>>,
+    /// at most this many bytes are taken by one write call
+    disk_short: Option<usize>,
+    /// the disk is full after this many more bytes
+    disk_left: Option<u64>,
 }
 
 thread_local! {
@@ -184,6 +192,10 @@ pub(crate) fn reset(seed: u64) {
             connects_ok: 0,
             connects_refused: 0,
             epoch: None,
+            files: BTreeMap::new(),
+            files_failed: BTreeMap::new(),
+            disk_short: None,
+            disk_left: None,
         })
     });
 }
@@ -672,5 +684,84 @@ impl TcpStream {
             Poll::Ready(r) => r,
             Poll::Pending => Ok(0),
         }
+    }
+}
+
+// ---- simulated disk ----------------------------------------------------------------------------
+// The one place the daemon writes files is the MRT dumper (`mrt::DumpFile`).  Under the
+// verification cfg that type is this in-memory file: `create` starts a new generation of the path
+// (a real create truncates), a write call may take only a few bytes (the caller's `write_all` has
+// to loop), and the disk can run full at a byte count the harness sets, which tears a record.
+
+/// Set the disk's behaviour from now on: `short` = at most that many bytes per write call,
+/// `full_after` = ENOSPC once that many more bytes have been written (None = plenty of room).
+pub(crate) fn set_disk(short: Option<usize>, full_after: Option<u64>) {
+    with_net(|n| {
+        n.disk_short = short;
+        n.disk_left = full_after;
+    });
+    log_event("disk-mode", short.unwrap_or(0) as u64, full_after.unwrap_or(u64::MAX));
+}
+
+pub(crate) fn file_generations(path: &str) -> Vec<Vec<u8>> {
+    with_net(|n| n.files.get(path).cloned().unwrap_or_default())
+}
+
+pub(crate) fn file_failed_generations(path: &str) -> Vec<usize> {
+    with_net(|n| n.files_failed.get(path).cloned().unwrap_or_default())
+}
+
+pub(crate) struct File {
+    path: String,
+    generation: usize,
+}
+
+impl File {
+    pub(crate) async fn create(path: impl AsRef<std::path::Path>) -> io::Result<File> {
+        let path = path.as_ref().to_string_lossy().to_string();
+        let generation = with_net(|n| {
+            let g = n.files.entry(path.clone()).or_default();
+            g.push(Vec::new());
+            g.len() - 1
+        });
+        log_event("file-create", generation as u64, 0);
+        Ok(File { path, generation })
+    }
+}
+
+impl AsyncWrite for File {
+    fn poll_write(self: Pin<&mut Self>, _cx: &mut Context<'_>, data: &[u8]) -> Poll<io::Result<usize>> {
+        if data.is_empty() {
+            return Poll::Ready(Ok(0));
+        }
+        let r = with_net(|n| {
+            let mut take = data.len();
+            if let Some(k) = n.disk_short {
+                take = take.min(k.max(1));
+            }
+            if let Some(left) = n.disk_left {
+                if left == 0 {
+                    n.files_failed.entry(self.path.clone()).or_default().push(self.generation);
+                    return Err(io::Error::from_raw_os_error(28)); // ENOSPC
+                }
+                take = take.min(left as usize);
+                n.disk_left = Some(left - take as u64);
+            }
+            if let Some(g) = n.files.get_mut(&self.path).and_then(|g| g.get_mut(self.generation)) {
+                g.extend_from_slice(&data[..take]);
+            }
+            Ok(take)
+        });
+        match &r {
+            Ok(k) => log_event("file-write", self.generation as u64, *k as u64),
+            Err(_) => log_event("file-write-enospc", self.generation as u64, 0),
+        }
+        Poll::Ready(r)
+    }
+    fn poll_flush(self: Pin<&mut Self>, _cx: &mut Context<'_>) -> Poll<io::Result<()>> {
+        Poll::Ready(Ok(()))
+    }
+    fn poll_shutdown(self: Pin<&mut Self>, _cx: &mut Context<'_>) -> Poll<io::Result<()>> {
+        Poll::Ready(Ok(()))
     }
 }
